@@ -8,7 +8,7 @@ META = {
     "technique": "Coq proof about intrinsic-level models of the x86-64 back ends (Model/Intrinsics.v, PpvSse.v, PpvAvx2.v): from_lanes/to_lanes round trips per S4 variant, little-endian storage views, insert/extract (SSE2 shuffle sequences and SSE4.1 pinsr/pextr), transpose4 (soft and AVX2 permute2x128), to_scalars lane order, LE/BE byte I/O, for all operands and all indices (symbolic conversion on byte variables, word lemmas); portable back end and soft.rs forwarding in Props/C13g.v; differential correspondence implementation = model = contract on generated cases for SSE2, SSSE3, SSE4.1, AVX, AVX2 and the portable back end; the intrinsic models are compared with this CPU on every run",
     "level_text": "Machine-checked theorems in Props/C13.v (x86-64 back ends) and Props/C13g.v (portable back end, soft.rs wrappers), all closed under the global context, for ALL operands and ALL indices: from_lanes / to_lanes put lane i at byte offset k*i little-endian and are mutually inverse for u32x4, u64x2, u128x1, u64x4 and the AVX2 types, in both SSE4.1 capability variants; extract (insert v x i) j = if i = j then x else extract v j with out-of-range indices panicking (pinsr/pextr forms and the NoS4 shuffle/shift/or sequences); the u32/u64/u128 storage views of the same 128/256/512 bits agree (little-endian); transpose4 is the 4x4 transpose (soft form and the AVX2 permute2x128 form); to_scalars lane order; StoreBytes read/write little- and big-endian are inverse and put the stated byte order per word; unpack/into round trip. Two statements were false on the pinned tree (P4: SSE u128x1 to_lanes/from_lanes panicked; P6: portable u64x4::insert was a no-op; repaired by fix: commits). Implementation = model = contract is checked on generated operands, every element index, byte-index patterns, on six back ends. Wide types on x86 (Proofs/PpvWideMove.v, PpvWideBytes.v): to/from_lanes, Vec2/Vec4 extract/insert for all indices (out-of-range panics), Store unpack / Into storage, StoreBytes little- and big-endian read/write of x2/x4 over SSE registers and x2 over AVX2 registers (byte order, wrong length panics, round trip): C13_wide_* theorems.",
     "level_note": "Trusted: Coq kernel+VM; Spec/Lanes.v; Model/Intrinsics.v (intrinsic semantics, validated against the host CPU on the same operand streams); hand-written models tied on generated cases; harness; that reading a union field / transmute of vec128/256/512_storage is the little-endian reinterpretation of the same bytes (x86-64). Some C13 statements are restatements that hold by unfolding (soft transpose4, u128x1 from_lanes, the storage views over the Spec's own reinterpret): they pin the model's definitions, the correspondence ties those to the code. No axioms.",
-    "rule": "x86 back ends: for each machine from_lanes/to_lanes (round trip and each direction against storage), Store::unpack / Into<storage> through every array view, UnsafeFrom::unsafe_from of all four impls (u32x4 from [u32;4], u64x2 from [u64;2], x2<W,G> and x4<W> from lane arrays, on every type that has one), storage reinterpretation between 4/8/16-byte word views, Default and == of vec128/256/512_storage (equal pairs, pairs differing in exactly one walked bit, rhs through another view), extract/insert at every valid index and at out-of-range indices (panic expected; element values include all-ones, top-bit-only = 0xffffffff / 0x80000000 and the 64- / 128-bit analogues, all-but-top-bit and 0, inserted into counting / all-ones / zero vectors and extracted from vectors holding them in one element or in every element), read/write_le/be incl. wrong slice lengths (panic expected) on all ten vector types (incl. u64x2, u128x1, u64x2x4, u128x2, u128x4 beyond the Machine bounds), transpose4, to_scalars, u128xN -> u32/u64 vector conversions; operands built with Machine::unpack and read with Into<storage>: zero, all-ones, byte-index pattern, high-bit patterns, carry chains, seeded random, rhs-identity pairs (all-ones / zero against the byte-index pattern: every rhs lane different and the result is the rhs), walking-one basis (every bit for 128-bit types, every 7th bit for wider types in the quick tier, every 13th for the ':l' machines and the assign forms, every bit in thorough); quick tier: debug profile on SSE2, SSSE3:l, SSE41, AVX2 and SseMachine<YesS3,YesS4,YesNI>:l (AVX is the same Rust type as SSE41 and runs in release), release profile (opt-level 2, no debug assertions) on SSE2, AVX, AVX2 with the --light 2 stream (same operand classes, walking one every 29th/11th bit, 5 carry chains); thorough: all five machines full streams in both profiles + the YesNI instantiation of the SSE machine; distinct = distinct (machine, type, op, parameter, operands); non-trivial = some operand byte non-zero; implementation outcome (ok/panic) and result compared with the intrinsic-level model and with the lane-wise contract inside coqc. Raw intrinsics: each _mm_*/_mm256_* the crate issues, same streams, the immediates of the source plus boundary ones, compared with Model/Intrinsics.v",
+    "rule": "x86 back ends: for each machine from_lanes/to_lanes (round trip and each direction against storage), Store::unpack / Into<storage> through every array view, UnsafeFrom::unsafe_from of all four impls (u32x4 from [u32;4], u64x2 from [u64;2], x2<W,G> and x4<W> from lane arrays, on every type that has one), storage reinterpretation between 4/8/16-byte word views, Default and == of vec128/256/512_storage (equal pairs, pairs differing in exactly one walked bit, rhs through another view), extract/insert at every valid index and at out-of-range indices (panic expected; element values include all-ones, top-bit-only = 0xffffffff / 0x80000000 and the 64- / 128-bit analogues, all-but-top-bit and 0, inserted into counting / all-ones / zero vectors and extracted from vectors holding them in one element or in every element), read/write_le/be incl. wrong slice lengths (panic expected) on all ten vector types (incl. u64x2, u128x1, u64x2x4, u128x2, u128x4 beyond the Machine bounds), transpose4, to_scalars, u128xN -> u32/u64 vector conversions; operands built with Machine::unpack and read with Into<storage>: zero, all-ones, byte-index pattern, high-bit patterns, carry chains, seeded random, rhs-identity pairs (all-ones / zero against the byte-index pattern: every rhs lane different and the result is the rhs), walking-one basis (every bit for 128-bit types, every 7th bit for wider types in the quick tier, every 13th for the ':l' machines and the assign forms, every bit in thorough); quick tier: debug profile on SSE2, SSSE3:l, SSE41, AVX2 and SseMachine<YesS3,YesS4,YesNI>:l (AVX is the same Rust type as SSE41 and runs in release), release profile (opt-level 2, no debug assertions) on SSE2, AVX, AVX2 with the --light 2 stream (same operand classes, walking one every 29th/11th bit, 5 carry chains); thorough: all five machines full streams in both profiles + the YesNI instantiation of the SSE machine; distinct = distinct (machine, type, op, parameter, operands); non-trivial = some operand byte non-zero; implementation outcome (ok/panic) and result compared with the intrinsic-level model and with the lane-wise contract inside coqc. Raw intrinsics: each _mm_*/_mm256_* the crate issues, same streams, the immediates of the source plus boundary ones, compared with Model/Intrinsics.v; ADDED (seed C03-7): the byte slices given to read_le / read_be / write_le / write_be are placed at every offset 0..7 from an 8-byte boundary in turn, x86 and portable back ends (a memory operation is a function of the bytes, not of their address; an alignment requirement shows as a panic = a differing outcome)",
     "assumptions": ["little-endian x86-64 host with AVX2 (all five x86 machines are executed directly on it)"],
     "trusted_extra": [
         "x86 back ends: Model/Intrinsics.v gives the meaning of each intrinsic on byte-list registers; it is modelled, and compared with this host's CPU on every run (h_ppv intr)",
